@@ -9,7 +9,7 @@ RULE = ("M1: TLC enumerates every window (start, end incl. negative end) of sequ
         "exact-integer model; all executed. M2: random calls A 2-5, L<=30, n<=3. distinct_nontrivial = cases with a proper "
         "sub-window, a tuple model, or per-example args.")
 EXHAUSTIVE = True
-KEYS = ("x", "A", "args", "start", "end", "bs", "out", "T", "tlo", "thi", "hyp", "raw")
+KEYS = ("x", "A", "args", "start", "end", "bs", "out", "T", "U", "tlo", "thi", "hyp", "raw")
 
 
 def run(ctx):
